@@ -35,6 +35,8 @@ class Cfg:
         self.comp_kinds = None
         self.fatal_actions = True
         self.failing_actions = True  # actions / conditions that raise ParseException
+        self.dl_combine = True        # DelimitedList(combine=True) allowed
+        self.blank_literals = True    # literals containing a blank ("a b") allowed
         for k, v in kw.items():
             setattr(self, k, v)
 
@@ -88,6 +90,8 @@ class ProgGen:
         k = _weighted(r, self.cfg.leaf_kinds or LEAF_KINDS)
         v = self.fresh()
         lits = ["a", "b", "ab", "ba", "x", ",", "+", "aa", "abb", "a b"]
+        if not self.cfg.blank_literals:
+            lits = lits[:-1]
         if k == "Literal":
             m = r.choice(lits)
             return self.add([v, "Literal", m], Info(False, shape=("lit", m)))
@@ -254,7 +258,7 @@ class ProgGen:
             return self.add([v, "SkipTo", a, kw], Info(True, left, ("skipto", a, kw["include"])))
         if k == "DelimitedList":
             a = self.pick()
-            kw = {"delim": r.choice([",", ",", "+"]), "combine": r.random() < 0.25, "trailing": r.random() < 0.25}
+            kw = {"delim": r.choice([",", ",", "+"]), "combine": self.cfg.dl_combine and r.random() < 0.25, "trailing": r.random() < 0.25}
             if r.random() < 0.3:
                 kw["min"] = r.choice([1, 2])
                 kw["max"] = kw["min"] + r.choice([0, 1, 2]) if r.random() < 0.6 else None
@@ -380,6 +384,46 @@ class ProgGen:
             b = self.info[v].body
             return self.sample(b, depth + 1) if b is not None else "a"
         return "a"
+
+
+def pieces(pg, v, depth=0):
+    """like ProgGen.sample, but returns the list of leaf texts (token pieces) of one sentence of `v`, without separators"""
+    r = pg.rng
+    sh = pg.info[v].shape
+    if sh is None or depth > 6:
+        return ["a"]
+    t = sh[0]
+    if t == "lit":
+        return [sh[1]] if sh[1] else []
+    if t == "word":
+        _, ini, body, mn, mx = sh
+        n = r.randint(max(mn, 1), max(mn, 1) + 2) if not mx else r.randint(max(mn, 1), mx)
+        return [r.choice(ini) + "".join(r.choice(body.replace(" ", "") or "a") for _ in range(n - 1))]
+    if t in ("seq", "tight"):
+        out = []
+        for x in sh[1]:
+            out += pieces(pg, x, depth + 1)
+        return out
+    if t == "alt":
+        return pieces(pg, r.choice(sh[1]), depth + 1)
+    if t == "opt":
+        return pieces(pg, sh[1], depth + 1) if r.random() < 0.6 else []
+    if t == "many":
+        out = []
+        for _ in range(r.randint(sh[2], sh[2] + 2)):
+            out += pieces(pg, sh[1], depth + 1)
+        return out
+    if t == "look":
+        return []
+    if t == "dlist":
+        out = pieces(pg, sh[1], depth + 1)
+        for _ in range(r.randint(0, 2)):
+            out += [sh[2]] + pieces(pg, sh[1], depth + 1)
+        return out
+    if t == "fwd":
+        b = pg.info[v].body
+        return pieces(pg, b, depth + 1) if b is not None else ["a"]
+    return ["a"]
 
 
 def mutate(rng, s):
